@@ -191,6 +191,7 @@ package influxql
 //@   let nextChar = ite(rd.n > 0, rd.buf[(rd.i-(rd.n-1)+3)%3].pos.Char, rd.pos.Char)
 //@   ensures [C05] @onerune (old(rd.n) == 0 && !old(rd.eof)) && (local(ch0) == '+' || local(ch0) == '-' || local(ch0) == '*' || local(ch0) == '/' || local(ch0) == '%' || local(ch0) == '&' || local(ch0) == '|' || local(ch0) == '^' || local(ch0) == '=' || local(ch0) == '!' || local(ch0) == '<' || local(ch0) == '>' || local(ch0) == '(' || local(ch0) == ')' || local(ch0) == ',' || local(ch0) == ';' || local(ch0) == ':') && (tok == ADD || tok == SUB || tok == MUL || tok == DIV || tok == MOD || tok == BITWISE_AND || tok == BITWISE_OR || tok == BITWISE_XOR || tok == EQ || tok == LT || tok == GT || tok == LPAREN || tok == RPAREN || tok == COMMA || tok == SEMICOLON || tok == COLON) ==> (nextLine == pos.Line && nextChar == int(pos.Char + 1))
 //@   ensures [C05] @tworunes (old(rd.n) == 0 && !old(rd.eof)) && (local(ch0) == '+' || local(ch0) == '-' || local(ch0) == '*' || local(ch0) == '/' || local(ch0) == '%' || local(ch0) == '&' || local(ch0) == '|' || local(ch0) == '^' || local(ch0) == '=' || local(ch0) == '!' || local(ch0) == '<' || local(ch0) == '>' || local(ch0) == '(' || local(ch0) == ')' || local(ch0) == ',' || local(ch0) == ';' || local(ch0) == ':') && (tok == EQREGEX || tok == NEQREGEX || tok == NEQ || tok == LTE || tok == GTE || tok == DOUBLECOLON) ==> (nextLine == pos.Line && nextChar == int(pos.Char + 2))
+//@   ensures [C05] @illegalbang (old(rd.n) == 0 && !old(rd.eof) && local(ch0) == '!' && tok == ILLEGAL) ==> (nextLine == pos.Line && nextChar == int(pos.Char + 1))
 //   -- string tokens too (property as stated; see finding on scanString)
 //@   claims [C05] @strpos old(rd.n) == 0 && (tok == STRING || tok == BADSTRING) ==> pos.Line == old(rd.pos.Line) && pos.Char == old(rd.pos.Char)
 
